@@ -2,140 +2,268 @@
 
     ONLY theorem statements (written out in full), each closed by [exact <lemma>] and followed by
     [Print Assumptions].  The save protocol in every statement is [cf_save gen_cache_facts], the
-    fact REGENERATED from /repo/src/mxlpy/parallel.py (_pickle_save) on every run;
-    [C19_facts_pinned] is the obligation that breaks when _pickle_save stops writing to a temporary
-    file + os.replace, when _load_or_run/_pickle_load/_pickle_name change shape, or when
-    parallelise / the scan functions stop passing the cache through.
+    default name function [cf_name gen_cache_facts]: facts REGENERATED from
+    /repo/src/mxlpy/parallel.py (_pickle_save, _pickle_name) on every run; [C19_facts_pinned] is the
+    obligation that breaks when _pickle_save stops writing to a temporary file + os.replace (also
+    when the replace moves in front of the close), when _load_or_run/_pickle_load/_pickle_name change
+    shape, or when parallelise / the scan functions stop passing the cache through.
 
-    Vocabulary (CacheFS.v / CacheFSSpec.v): a schedule [sched : list nat] names the worker that takes
-    the next micro-step, so "forall sched" is EVERY interleaving of the per-key workers and EVERY
-    point at which the run can be killed (schedules are prefix closed; a byte of a result file is one
-    micro-step).  [collect items pcs = Some l]: the caller gets the list l.  [run_uncached] is the
-    `cache is None` branch.  [Good items f]: every result file of the run is absent or complete and
-    correct.  Guard of all positive theorems: [names_distinct] (distinct keys of the run have
-    distinct file names); its complement is the recorded finding C19-name-collision. *)
-From Coq Require Import List NArith ZArith Bool Arith.
+    Vocabulary (CacheFS.v / CacheFSSpec.v / CacheKeys.v): a schedule [sched : list nat] names the
+    worker that takes the next micro-step, so "forall sched" is EVERY interleaving of the per-key
+    workers and EVERY point at which the run can be killed (schedules are prefix closed; a byte of a
+    result file is one micro-step).  [pol : V -> nat -> bool] is the FLUSH POLICY of the file objects
+    of a run (does the write handing over byte j of the pickle of v reach the file at once?):
+    [pol_through] = unbuffered, [pol_buffered] = nothing before close(); "forall pol" covers both and
+    every buffer size between them; a kill discards what is still buffered.  [collect items pcs =
+    Some l]: the caller gets the list l.  [run_uncached] is the `cache is None` branch.  [Good items
+    f]: every result file of the run is absent or complete and correct.  [names_distinct]: distinct
+    keys of the run have distinct file names -- the guard of the positive theorems as long as the tree
+    carries f"{k}.p" (its complement is the recorded finding C19-name-collision); for the repaired
+    f"{k!r}.p" it is a THEOREM over the key universe of CacheKeys.v (C19_repr_names_injective), and
+    C19_transparent needs no guard.
+
+    OUT OF SCOPE (not modelled, not claimed): power loss / kernel crash.  The model's file system is
+    what the kernel has been handed; it survives the death of a process, not of the machine.  There
+    is no fsync step in the model and none in _pickle_save. *)
+From Coq Require Import List NArith ZArith Bool Arith Ascii String.
 From MxlBase Require Import ListX.
-From CacheFS Require Import CacheFS CacheFSSpec GenCacheFacts CacheFSProofs CacheFSProps.
+From CacheFS Require Import CacheKeys CacheFS CacheFSSpec GenCacheFacts ExpectedFacts CacheKeysProofs CacheFSProofs CacheFSProps.
 Import ListNotations.
 
-Theorem C19_facts_pinned : gen_cache_facts = mkCacheFacts SaveTempReplace true true.
+Theorem C19_facts_pinned : gen_cache_facts = mkCacheFacts SaveTempReplace true true C19_expected_name.
 Proof. vm_compute. reflexivity. Qed.
 Print Assumptions C19_facts_pinned.
 
-(** FULL statement (false of the code, see C19_transparent_refuted): for every list of pairs with
-    pairwise different KEYS the cached run over a fresh directory returns the uncached results.
-    PROVED: the same under the guard that the keys' FILE NAMES are pairwise different -- for
-    parallel=False, for the pool, and for every interleaving of the workers. *)
+(** FULL statement: for every list of pairs with pairwise different KEYS the cached run over a fresh
+    directory returns the uncached results -- C19_transparent below, for the repaired names.
+    HERE: the same under the guard that the keys' FILE NAMES are pairwise different (any name
+    function) -- for parallel=False, for the pool, for every interleaving, for every flush policy. *)
 Theorem C19_transparent_partial :
-  forall (V : Type) (name : N -> N) (fnv : N -> V) (size : V -> nat) (items : list (N * N)) (p : N),
+  forall (V : Type) (name : N -> N) (fnv : N -> V) (size : V -> nat) (pol : V -> nat -> bool)
+         (items : list (N * N)) (p : N),
     names_distinct name items ->
-    collect items (s_pcs (run_seq V name fnv size None (cf_save gen_cache_facts) p items fs_empty))
+    collect items (s_pcs (run_seq V name fnv size pol None (cf_save gen_cache_facts) p items fs_empty))
       = Some (run_uncached V fnv items)
-    /\ collect items (s_pcs (run_par V name fnv size (cf_save gen_cache_facts) p items fs_empty))
+    /\ collect items (s_pcs (run_par V name fnv size pol (cf_save gen_cache_facts) p items fs_empty))
       = Some (run_uncached V fnv items)
     /\ forall sched,
-         let st := exec V name fnv size (cf_save gen_cache_facts) p items sched (init items fs_empty) in
+         let st := exec V name fnv size pol (cf_save gen_cache_facts) p items sched (init items fs_empty) in
          all_done st = true -> collect items (s_pcs st) = Some (run_uncached V fnv items).
 Proof. exact (fun V name fnv size => transparent V name fnv size gen_cache_facts C19_facts_pinned). Qed.
 Print Assumptions C19_transparent_partial.
 
-(** outside the guard: two different keys whose file names coincide (1 and "1" under the default
-    name_fn) -- the second key is answered with the first key's result *)
+(** outside the guard: two different keys whose file names coincide -- the second key is answered
+    with the first key's result *)
 Theorem C19_transparent_refuted :
   exists (name : N -> N) (items : list (N * N)),
     NoDup (map fst items)
-    /\ collect items (s_pcs (run_seq Z name Z.of_N (fun _ => 1) None (cf_save gen_cache_facts) 1 items fs_empty))
+    /\ collect items (s_pcs (run_seq Z name Z.of_N (fun _ => 1) pol_through None (cf_save gen_cache_facts) 1 items fs_empty))
        <> Some (run_uncached Z Z.of_N items).
 Proof. exact (name_collision_refuted (cf_save gen_cache_facts)). Qed.
 Print Assumptions C19_transparent_refuted.
 
-(** a repeated run (any interleaving, killed anywhere or not) after a complete first run never calls
-    fn, never touches the directory, and returns the same results when it completes *)
+(** the repaired default name function f"{k!r}.p" is injective on the key universe (ints, bools,
+    None, floats, 7-bit strings, nested tuples of those), whatever process computes the name *)
+Theorem C19_repr_names_injective :
+  forall (sh1 sh2 : N -> list ascii -> Z) (salt1 salt2 : N) (k1 k2 : key),
+    wf_key k1 = true -> wf_key k2 = true ->
+    name_of NameRepr sh1 salt1 k1 = name_of NameRepr sh2 salt2 k2 -> k1 = k2.
+Proof. exact name_repr_inj. Qed.
+Print Assumptions C19_repr_names_injective.
+
+(** FULL transparency, no guard on the names: once the tree carries the repaired name function
+    (hypothesis 1; C19_facts_pinned decides it together with ExpectedFacts.v), pairwise different
+    keys of the universe suffice *)
+Theorem C19_transparent :
+  forall (V : Type) (keyof : N -> key) (fnv : N -> V) (size : V -> nat),
+    cf_name gen_cache_facts = NameRepr ->
+    forall (pol : V -> nat -> bool) (items : list (N * N)) (p : N) (sh : N -> list ascii -> Z) (salt : N),
+      (forall kx, In kx items -> wf_key (keyof (fst kx)) = true) ->
+      NoDup (map (fun kx => keyof (fst kx)) items) ->
+      let name := name_id (cf_name gen_cache_facts) sh salt keyof in
+      collect items (s_pcs (run_seq V name fnv size pol None (cf_save gen_cache_facts) p items fs_empty))
+        = Some (run_uncached V fnv items)
+      /\ collect items (s_pcs (run_par V name fnv size pol (cf_save gen_cache_facts) p items fs_empty))
+        = Some (run_uncached V fnv items)
+      /\ forall sched,
+           let st := exec V name fnv size pol (cf_save gen_cache_facts) p items sched (init items fs_empty) in
+           all_done st = true -> collect items (s_pcs st) = Some (run_uncached V fnv items).
+Proof. exact (fun V keyof fnv size => transparent_repr_tree V keyof fnv size gen_cache_facts C19_facts_pinned). Qed.
+Print Assumptions C19_transparent.
+
+(** ... and the same statement for the repaired function as such (no hypothesis about the tree):
+    what fixes/C19-name-fn.diff establishes *)
+Theorem C19_transparent_repaired_names :
+  forall (V : Type) (keyof : N -> key) (fnv : N -> V) (size : V -> nat)
+         (pol : V -> nat -> bool) (items : list (N * N)) (p : N) (sh : N -> list ascii -> Z) (salt : N),
+    (forall kx, In kx items -> wf_key (keyof (fst kx)) = true) ->
+    NoDup (map (fun kx => keyof (fst kx)) items) ->
+    let name := name_id NameRepr sh salt keyof in
+    collect items (s_pcs (run_seq V name fnv size pol None SaveTempReplace p items fs_empty))
+      = Some (run_uncached V fnv items)
+    /\ collect items (s_pcs (run_par V name fnv size pol SaveTempReplace p items fs_empty))
+      = Some (run_uncached V fnv items)
+    /\ forall sched,
+         let st := exec V name fnv size pol SaveTempReplace p items sched (init items fs_empty) in
+         all_done st = true -> collect items (s_pcs st) = Some (run_uncached V fnv items).
+Proof. exact (fun V keyof fnv size => transparent_repr V keyof fnv size (mkCacheFacts SaveTempReplace true true NameRepr) eq_refl eq_refl). Qed.
+Print Assumptions C19_transparent_repaired_names.
+
+(** REGRESSION (the code as found, f"{k}.p"; = finding C19-name-collision while ExpectedFacts.v says
+    NameStr): the int 1 and the str "1" are different keys of the universe, share the file 1.p, and
+    the cached run over a fresh directory returns the wrong result for the second -- under every
+    save protocol; the repaired names give the uncached results on the same input *)
+Theorem C19_str_names_collide_refuted :
+  forall pr,
+  exists (keyof : N -> key) (items : list (N * N)),
+    (forall kx, In kx items -> wf_key (keyof (fst kx)) = true)
+    /\ NoDup (map (fun kx => keyof (fst kx)) items)
+    /\ collect items (s_pcs (run_seq Z (name_id NameStr no_strhash 0 keyof) Z.of_N (fun _ => 1) pol_through
+                                     None pr 1 items fs_empty))
+       <> Some (run_uncached Z Z.of_N items)
+    /\ collect items (s_pcs (run_seq Z (name_id NameRepr no_strhash 0 keyof) Z.of_N (fun _ => 1) pol_through
+                                     None SaveTempReplace 1 items fs_empty))
+       = Some (run_uncached Z Z.of_N items).
+Proof. exact str_names_collide_refuted. Qed.
+Print Assumptions C19_str_names_collide_refuted.
+
+(** the file name is a function of the key alone: it does not depend on the interpreter (string-hash
+    salt [salt], salted hash function [sh]) that computes it *)
+Theorem C19_names_process_independent :
+  forall (sh1 sh2 : N -> list ascii -> Z) (salt1 salt2 : N) (k : key),
+    name_of (cf_name gen_cache_facts) sh1 salt1 k = name_of (cf_name gen_cache_facts) sh2 salt2 k.
+Proof. exact (names_process_independent gen_cache_facts C19_facts_pinned). Qed.
+Print Assumptions C19_names_process_independent.
+
+(** REGRESSION (seeded/C19-3, f"{hash(k)}.p"): (a) the ints -1 and -2 have one hash, hence one file:
+    wrong result on a fresh directory;  (b) a str key gets another file name in an interpreter whose
+    hash salt gives the string another hash *)
+Theorem C19_hash_names_refuted :
+  (forall pr,
+   exists (keyof : N -> key) (items : list (N * N)),
+     (forall kx, In kx items -> wf_key (keyof (fst kx)) = true)
+     /\ NoDup (map (fun kx => keyof (fst kx)) items)
+     /\ collect items (s_pcs (run_seq Z (name_id NameHash no_strhash 0 keyof) Z.of_N (fun _ => 1) pol_through
+                                      None pr 1 items fs_empty))
+        <> Some (run_uncached Z Z.of_N items))
+  /\ (forall (sh : N -> list ascii -> Z) (salt1 salt2 : N) (s : list ascii),
+        sh salt1 s <> sh salt2 s -> sh salt1 s <> (-1)%Z -> sh salt2 s <> (-1)%Z ->
+        name_of NameHash sh salt1 (KStr s) <> name_of NameHash sh salt2 (KStr s)).
+Proof. exact (conj hash_names_refuted name_hash_depends_on_salt). Qed.
+Print Assumptions C19_hash_names_refuted.
+
+(** a repeated run (any interleaving, killed anywhere or not, any flush policy) after a complete
+    first run never calls fn, never touches the directory, and returns the same results when it
+    completes *)
 Theorem C19_second_run_hits_disk :
-  forall (V : Type) (name : N -> N) (fnv : N -> V) (size : V -> nat) (items : list (N * N))
-         (p1 p2 : N) (sched1 : list nat),
+  forall (V : Type) (name : N -> N) (fnv : N -> V) (size : V -> nat) (pol1 pol2 : V -> nat -> bool)
+         (items : list (N * N)) (p1 p2 : N) (sched1 : list nat),
     names_distinct name items ->
-    let st1 := exec V name fnv size (cf_save gen_cache_facts) p1 items sched1 (init items fs_empty) in
+    let st1 := exec V name fnv size pol1 (cf_save gen_cache_facts) p1 items sched1 (init items fs_empty) in
     all_done st1 = true ->
     forall sched2,
-      let st2 := exec V name fnv size (cf_save gen_cache_facts) p2 items sched2 (init items (s_fs st1)) in
+      let st2 := exec V name fnv size pol2 (cf_save gen_cache_facts) p2 items sched2 (init items (s_fs st1)) in
       s_calls st2 = 0%N /\ s_effs st2 = 0%N /\ (forall q, s_fs st2 q = s_fs st1 q)
       /\ (all_done st2 = true -> collect items (s_pcs st2) = Some (run_uncached V fnv items)).
 Proof. exact (fun V name fnv size => second_run_hits_disk V name fnv size gen_cache_facts C19_facts_pinned). Qed.
 Print Assumptions C19_second_run_hits_disk.
 
+(** ... also when the repeated run happens in a NEW INTERPRETER: another process id, another
+    string-hash salt, another flush policy -- with the default name function of the tree *)
+Theorem C19_new_interpreter_rerun_hits_disk :
+  forall (V : Type) (keyof : N -> key) (fnv : N -> V) (size : V -> nat) (pol1 pol2 : V -> nat -> bool)
+         (items : list (N * N)) (p1 p2 : N) (sh1 sh2 : N -> list ascii -> Z) (salt1 salt2 : N)
+         (sched1 : list nat),
+    let name1 := name_id (cf_name gen_cache_facts) sh1 salt1 keyof in
+    let name2 := name_id (cf_name gen_cache_facts) sh2 salt2 keyof in
+    names_distinct name1 items ->
+    let st1 := exec V name1 fnv size pol1 (cf_save gen_cache_facts) p1 items sched1 (init items fs_empty) in
+    all_done st1 = true ->
+    forall sched2,
+      let st2 := exec V name2 fnv size pol2 (cf_save gen_cache_facts) p2 items sched2 (init items (s_fs st1)) in
+      s_calls st2 = 0%N /\ s_effs st2 = 0%N /\ (forall q, s_fs st2 q = s_fs st1 q)
+      /\ (all_done st2 = true -> collect items (s_pcs st2) = Some (run_uncached V fnv items)).
+Proof. exact (fun V keyof fnv size => new_interpreter_rerun_hits_disk V keyof fnv size gen_cache_facts C19_facts_pinned). Qed.
+Print Assumptions C19_new_interpreter_rerun_hits_disk.
+
 (** the run is killed after ANY prefix [sched1] of ANY interleaving (before, between and after the
-    bytes of every result file, before/after the replace), starting from any Good directory (a
-    fresh one, or one left by earlier interrupted runs): the directory left behind is Good, and every
-    rerun -- parallel=False, the pool, any interleaving that completes -- returns the uncached
-    result for every key and leaves every result file complete *)
+    bytes of every result file, before/after the close and the replace), under ANY flush policy
+    [pol1] (write-through, fully buffered, anything between: what is still buffered is lost),
+    starting from any Good directory (a fresh one, or one left by earlier interrupted runs): the
+    directory left behind is Good -- the published file is only ever a closed, complete file --
+    and every rerun -- parallel=False, the pool, any interleaving that completes, any flush policy
+    [pol2] -- returns the uncached result for every key and leaves every result file complete *)
 Theorem C19_crash_then_rerun :
-  forall (V : Type) (name : N -> N) (fnv : N -> V) (size : V -> nat) (items : list (N * N))
-         (f0 : fs V) (p1 : N) (sched1 : list nat),
+  forall (V : Type) (name : N -> N) (fnv : N -> V) (size : V -> nat) (pol1 pol2 : V -> nat -> bool)
+         (items : list (N * N)) (f0 : fs V) (p1 : N) (sched1 : list nat),
     names_distinct name items -> Good V name fnv size items f0 ->
-    let f1 := s_fs (exec V name fnv size (cf_save gen_cache_facts) p1 items sched1 (init items f0)) in
+    let f1 := s_fs (exec V name fnv size pol1 (cf_save gen_cache_facts) p1 items sched1 (init items f0)) in
     Good V name fnv size items f1
     /\ forall p2,
          (forall sched2,
-            let st2 := exec V name fnv size (cf_save gen_cache_facts) p2 items sched2 (init items f1) in
+            let st2 := exec V name fnv size pol2 (cf_save gen_cache_facts) p2 items sched2 (init items f1) in
             all_done st2 = true ->
             collect items (s_pcs st2) = Some (run_uncached V fnv items)
             /\ AllCached V name fnv size items (s_fs st2))
-         /\ (let st2 := run_seq V name fnv size None (cf_save gen_cache_facts) p2 items f1 in
+         /\ (let st2 := run_seq V name fnv size pol2 None (cf_save gen_cache_facts) p2 items f1 in
              all_done st2 = true /\ collect items (s_pcs st2) = Some (run_uncached V fnv items)
              /\ AllCached V name fnv size items (s_fs st2))
-         /\ (let st2 := run_par V name fnv size (cf_save gen_cache_facts) p2 items f1 in
+         /\ (let st2 := run_par V name fnv size pol2 (cf_save gen_cache_facts) p2 items f1 in
              all_done st2 = true /\ collect items (s_pcs st2) = Some (run_uncached V fnv items)
              /\ AllCached V name fnv size items (s_fs st2)).
 Proof. exact (fun V name fnv size => crash_then_rerun V name fnv size gen_cache_facts C19_facts_pinned). Qed.
 Print Assumptions C19_crash_then_rerun.
 
-(** ... and so does any number of interrupted runs in a row, each killed anywhere *)
+(** ... and so does any number of interrupted runs in a row, each killed anywhere, each with its own
+    process id and flush policy *)
 Theorem C19_any_number_of_crashes :
   forall (V : Type) (name : N -> N) (fnv : N -> V) (size : V -> nat) (items : list (N * N))
-         (runs : list (N * list nat)) (f0 : fs V),
+         (runs : list (N * (V -> nat -> bool) * list nat)) (f0 : fs V),
     names_distinct name items -> Good V name fnv size items f0 ->
     Good V name fnv size items
-      (fold_left (fun f r => s_fs (exec V name fnv size (cf_save gen_cache_facts) (fst r) items (snd r) (init items f)))
+      (fold_left (fun f r => s_fs (exec V name fnv size (snd (fst r)) (cf_save gen_cache_facts) (fst (fst r)) items
+                                         (snd r) (init items f)))
                  runs f0).
 Proof. exact (fun V name fnv size => any_number_of_crashes V name fnv size gen_cache_facts C19_facts_pinned). Qed.
 Print Assumptions C19_any_number_of_crashes.
 
-(** "a rerun completes": under any interleaving, any protocol and any directory content, a worker
-    that got size(result)+5 turns has returned or raised; a schedule that gives every worker that
-    many turns is complete *)
+(** "a rerun completes": under any interleaving, any protocol, any flush policy and any directory
+    content, a worker that got size(result)+5 turns has returned or raised; a schedule that gives
+    every worker that many turns is complete *)
 Theorem C19_rerun_completes :
-  forall (V : Type) (name : N -> N) (fnv : N -> V) (size : V -> nat) pr (items : list (N * N))
-         (f0 : fs V) (p : N) (sched : list nat),
+  forall (V : Type) (name : N -> N) (fnv : N -> V) (size : V -> nat) (pol : V -> nat -> bool) pr
+         (items : list (N * N)) (f0 : fs V) (p : N) (sched : list nat),
     (forall i k x, nth_error items i = Some (k, x) -> wfuel V fnv size x <= count_occ Nat.eq_dec sched i) ->
-    all_done (exec V name fnv size pr p items sched (init items f0)) = true.
+    all_done (exec V name fnv size pol pr p items sched (init items f0)) = true.
 Proof. exact fair_schedule_completes. Qed.
 Print Assumptions C19_rerun_completes.
 
 (** the executable runners evaluated in the correspondence check are schedules, i.e. instances of
     what the theorems above quantify over (also when killed after b file-system effects) *)
 Theorem C19_runners_are_schedules :
-  forall (V : Type) (name : N -> N) (fnv : N -> V) (size : V -> nat) b pr p (items : list (N * N)) (f0 : fs V),
-    exists sched, run_seq V name fnv size b pr p items f0 = exec V name fnv size pr p items sched (init items f0).
+  forall (V : Type) (name : N -> N) (fnv : N -> V) (size : V -> nat) (pol : V -> nat -> bool) b pr p
+         (items : list (N * N)) (f0 : fs V),
+    exists sched, run_seq V name fnv size pol b pr p items f0 = exec V name fnv size pol pr p items sched (init items f0).
 Proof. exact run_seq_is_schedule. Qed.
 Print Assumptions C19_runners_are_schedules.
 
 Theorem C19_pool_runner_with_dying_worker_is_schedule :
-  forall (V : Type) (name : N -> N) (fnv : N -> V) (size : V -> nat) pr p (items : list (N * N)) (f0 : fs V) c e,
-    exists sched, run_par_exit V name fnv size pr p items f0 c e = exec V name fnv size pr p items sched (init items f0).
+  forall (V : Type) (name : N -> N) (fnv : N -> V) (size : V -> nat) (pol : V -> nat -> bool) pr p
+         (items : list (N * N)) (f0 : fs V) c e,
+    exists sched, run_par_exit V name fnv size pol pr p items f0 c e = exec V name fnv size pol pr p items sched (init items f0).
 Proof. exact run_par_exit_is_schedule. Qed.
 Print Assumptions C19_pool_runner_with_dying_worker_is_schedule.
 
-(** THE CODE AS FOUND (direct write into the final path), as a theorem about the same model with
-    fact = SaveDirect: from an EMPTY directory, kill the run right after open("wb"); then no rerun,
-    under no interleaving, ever returns *)
+(** THE CODE AS FIRST FOUND (direct write into the final path), as a theorem about the same model with
+    fact = SaveDirect: from an EMPTY directory, kill the run right after open("wb") (any flush
+    policy); then no rerun, under no interleaving and no flush policy, ever returns *)
 Theorem C19_torn_refuted :
   exists (items : list (N * N)) (sched1 : list nat),
     names_distinct (fun k => k) items
-    /\ let f1 := s_fs (exec Z (fun k => k) Z.of_N (fun _ => 5) SaveDirect 1 items sched1 (init items fs_empty)) in
-       forall p2 sched2,
-         let st2 := exec Z (fun k => k) Z.of_N (fun _ => 5) SaveDirect p2 items sched2 (init items f1) in
+    /\ forall pol1,
+       let f1 := s_fs (exec Z (fun k => k) Z.of_N (fun _ => 5) pol1 SaveDirect 1 items sched1 (init items fs_empty)) in
+       forall pol2 p2 sched2,
+         let st2 := exec Z (fun k => k) Z.of_N (fun _ => 5) pol2 SaveDirect p2 items sched2 (init items f1) in
          all_done st2 = true -> collect items (s_pcs st2) = None.
 Proof. exact torn_refuted. Qed.
 Print Assumptions C19_torn_refuted.
@@ -143,17 +271,51 @@ Print Assumptions C19_torn_refuted.
 (** ... and in general: with the direct write a final file holding ANY strict prefix (every byte
     offset j <> size) is never repaired, its worker can only raise, and no complete run returns *)
 Theorem C19_direct_every_torn_offset_poisons :
-  forall (V : Type) (name : N -> N) (fnv : N -> V) (size : V -> nat) (items : list (N * N))
-         (f0 : fs V) (p : N) (sched : list nat) (i : nat) (k x : N) (v : V) (j : nat),
+  forall (V : Type) (name : N -> N) (fnv : N -> V) (size : V -> nat) (pol : V -> nat -> bool)
+         (items : list (N * N)) (f0 : fs V) (p : N) (sched : list nat) (i : nat) (k x : N) (v : V) (j : nat),
     names_distinct name items ->
     nth_error items i = Some (k, x) ->
     f0 (Final (name k)) = Some (v, j) -> j <> size v ->
-    let st := exec V name fnv size SaveDirect p items sched (init items f0) in
+    let st := exec V name fnv size pol SaveDirect p items sched (init items f0) in
     s_fs st (Final (name k)) = Some (v, j)
     /\ (forall r, nth_error (s_pcs st) i = Some (PDone r) -> r = Raised)
     /\ (all_done st = true -> collect items (s_pcs st) = None).
-Proof. exact (fun V name fnv size => direct_torn_poisons V name fnv size SaveDirect eq_refl). Qed.
+Proof. exact (fun V name fnv size pol => direct_torn_poisons V name fnv size pol SaveDirect eq_refl). Qed.
 Print Assumptions C19_direct_every_torn_offset_poisons.
+
+(** ... under EVERY save protocol: no protocol repairs a torn result file, because _load_or_run takes
+    the existence of the file for "result available".  (Hence Good is not only sufficient but what a
+    save protocol has to maintain.) *)
+Theorem C19_torn_file_is_never_repaired :
+  forall (V : Type) (name : N -> N) (fnv : N -> V) (size : V -> nat) (pol : V -> nat -> bool) pr
+         (items : list (N * N)) (f0 : fs V) (p : N) (sched : list nat) (i : nat) (k x : N) (v : V) (j : nat),
+    names_distinct name items ->
+    nth_error items i = Some (k, x) ->
+    f0 (Final (name k)) = Some (v, j) -> j <> size v ->
+    let st := exec V name fnv size pol pr p items sched (init items f0) in
+    s_fs st (Final (name k)) = Some (v, j)
+    /\ (forall r, nth_error (s_pcs st) i = Some (PDone r) -> r = Raised)
+    /\ (all_done st = true -> collect items (s_pcs st) = None).
+Proof. exact torn_poisons. Qed.
+Print Assumptions C19_torn_file_is_never_repaired.
+
+(** REGRESSION (seeded/C19-1): os.replace(tmp, file) executed BEFORE the handle is closed (fact =
+    SaveReplaceOpen).  With file objects that buffer (pol_buffered) the run is killed right after the
+    replace: the directory is not Good (the final file exists with 0 bytes) and no rerun -- whatever
+    its protocol, flush policy, interleaving -- returns.  With unbuffered file objects the same kill
+    point leaves a Good directory: only the buffered semantics exposes the defect. *)
+Theorem C19_replace_before_close_refuted :
+  exists (items : list (N * N)) (sched1 : list nat),
+    names_distinct (fun k => k) items
+    /\ let f1 := s_fs (exec Z (fun k => k) Z.of_N (fun _ => 5) pol_buffered SaveReplaceOpen 1 items sched1 (init items fs_empty)) in
+       ~ Good Z (fun k => k) Z.of_N (fun _ => 5) items f1
+       /\ (forall pr2 pol2 p2 sched2,
+             let st2 := exec Z (fun k => k) Z.of_N (fun _ => 5) pol2 pr2 p2 items sched2 (init items f1) in
+             all_done st2 = true -> collect items (s_pcs st2) = None)
+       /\ Good Z (fun k => k) Z.of_N (fun _ => 5) items
+            (s_fs (exec Z (fun k => k) Z.of_N (fun _ => 5) pol_through SaveReplaceOpen 1 items sched1 (init items fs_empty))).
+Proof. exact replace_before_close_refuted. Qed.
+Print Assumptions C19_replace_before_close_refuted.
 
 (** non-vacuity: three keys with 5-byte results; the run is killed in the middle of the second
     key's file (after 2 of its bytes; first key complete); the hypotheses of C19_crash_then_rerun
@@ -162,8 +324,8 @@ Example C19_nonvacuous :
   let items := [(1, 2); (2, 3); (3, 4)]%N in
   let name := (fun k : N => k) in
   let size := (fun _ : Z => 5) in
-  let st1 := run_seq Z name Z.of_N size (Some 10%N) (cf_save gen_cache_facts) 1 items fs_empty in
-  let st2 := run_seq Z name Z.of_N size None (cf_save gen_cache_facts) 2 items (s_fs st1) in
+  let st1 := run_seq Z name Z.of_N size pol_through (Some 10%N) (cf_save gen_cache_facts) 1 items fs_empty in
+  let st2 := run_seq Z name Z.of_N size pol_through None (cf_save gen_cache_facts) 2 items (s_fs st1) in
   names_distinct name items
   /\ observe Z name 1 items (s_fs st1) = [(Some (2%Z, 5), None); (None, Some (3%Z, 2)); (None, None)]
   /\ outcome_of items st1 = Died
@@ -178,3 +340,39 @@ Proof.
   - vm_compute. reflexivity.
 Qed.
 Print Assumptions C19_nonvacuous.
+
+(** non-vacuity, buffered file objects and real keys: the keys 1, "1" and (1, 'u') under the repaired
+    names (pairwise different names: 1.p, '1'.p, (1, 'u').p); the run is killed after 4 file-system
+    effects (first key complete: open, drain at close, replace; second key: open) -- the second key's
+    5 bytes were all handed to fp.write but sit in the buffer, so its temporary file is EMPTY; the
+    rerun (new process, unbuffered) recomputes exactly two keys *)
+Example C19_nonvacuous_buffered :
+  let items := [(1, 2); (2, 3); (3, 4)]%N in
+  let keyof := (fun id : N => if N.eqb id 1 then KInt 1 else if N.eqb id 2 then KStr (chars "1")
+                              else KTuple [KInt 1; KStr (chars "u")]) in
+  let name := name_id NameRepr no_strhash 0 keyof in
+  let size := (fun _ : Z => 5) in
+  let st1 := exec Z name Z.of_N size pol_buffered (cf_save gen_cache_facts) 1 items
+                  (repeat 0 10 ++ repeat 1 8) (init items fs_empty) in
+  let st2 := run_seq Z name Z.of_N size pol_through None (cf_save gen_cache_facts) 2 items (s_fs st1) in
+  (forall kx, In kx items -> wf_key (keyof (fst kx)) = true)
+  /\ NoDup (map (fun kx => keyof (fst kx)) items)
+  /\ map (fun kx => option_map string_of_list_ascii (name_of NameRepr no_strhash 0 (keyof (fst kx)))) items
+     = [Some "1.p"; Some "'1'.p"; Some "(1, 'u').p"]%string
+  /\ observe Z name 1 items (s_fs st1) = [(Some (2%Z, 5), None); (None, Some (3%Z, 0)); (None, None)]
+  /\ nth_error (s_pcs st1) 1 = Some (PWrite 3%Z 5 0)
+  /\ s_effs st1 = 4%N
+  /\ outcome_of items st2 = Returned [(1%N, 2%Z); (2%N, 3%Z); (3%N, 4%Z)]
+  /\ s_calls st2 = 2%N.
+Proof.
+  cbv zeta. split; [|split; [|split; [|split; [|split; [|split; [|split]]]]]].
+  - intros kx [<-|[<-|[<-|[]]]]; reflexivity.
+  - repeat constructor; cbn; intuition discriminate.
+  - vm_compute. reflexivity.
+  - vm_compute. reflexivity.
+  - vm_compute. reflexivity.
+  - vm_compute. reflexivity.
+  - vm_compute. reflexivity.
+  - vm_compute. reflexivity.
+Qed.
+Print Assumptions C19_nonvacuous_buffered.
